@@ -58,9 +58,8 @@ def create_detector_directions() -> DetectorArray:
 def create_acquisition(
     landscape: HealpixLandscape, samplings: Sampling, detector_dirs: DetectorArray
 ) -> AbstractLinearOperator:
-    tod_shape = len(detector_dirs), len(samplings)
     proj = create_projection_operator(landscape, samplings, detector_dirs)
     hwp = HWPOperator(proj.out_structure())
-    polarizer = LinearPolarizerOperator.create(tod_shape, stokes=landscape.stokes)
+    polarizer = LinearPolarizerOperator(proj.out_structure())
     acquisition: AbstractLinearOperator = polarizer @ hwp @ proj
     return acquisition.reduce()
